@@ -399,11 +399,41 @@ func runC11(c EditCase, o *vk.Obs) string {
 type SeqCase struct {
 	Vs  []int  `json:"vs"`
 	Cmp string `json:"cmp,omitempty"`
+	// Segs describes a long input compactly (used when Vs is empty): the
+	// concatenation of arithmetic runs {start, step, length}.
+	Segs [][3]int `json:"segs,omitempty"`
+}
+
+// refLongestFast is the patience-sorting reference for long inputs: tails[l]
+// is the smallest possible last element of a qualifying subsequence of
+// length l+1; each element replaces the first tail it does not extend.
+func refLongestFast(vs []int, cmpf func(a, b int) int, strict bool) int {
+	var tails []int
+	for _, v := range vs {
+		// first tail t that v cannot follow: t >= v (strict) or t > v
+		lo, hi := 0, len(tails)
+		for lo < hi {
+			mid := lo + (hi-lo)/2
+			c := cmpf(tails[mid], v)
+			if c < 0 || (!strict && c == 0) {
+				lo = mid + 1
+			} else {
+				hi = mid
+			}
+		}
+		if lo == len(tails) {
+			tails = append(tails, v)
+		} else {
+			tails[lo] = v
+		}
+	}
+	return len(tails)
 }
 
 var c12SeqNames = []string{
 	"cmp=nat", "cmp=rev", "cmp=half", "empty", "all_equivalent", "whole_input_nondecreasing",
 	"strictly_decreasing", "has_adjacent_equal_run", "lnds>lis", "lnds>=lis+3", "len>=50",
+	"len>32768", "len>65536", "optimum>32768", "optimum>65536",
 }
 
 const (
@@ -418,9 +448,20 @@ const (
 	c12Diff
 	c12Diff3
 	c12SeqLong
+	c12Seq15
+	c12Seq16
+	c12Opt15
+	c12Opt16
 )
 
 func checkSeq(c SeqCase) (in info, msg string) {
+	if len(c.Vs) == 0 && len(c.Segs) > 0 {
+		for _, sg := range c.Segs {
+			for i := 0; i < sg[2]; i++ {
+				c.Vs = append(c.Vs, sg[0]+i*sg[1])
+			}
+		}
+	}
 	var cmpf func(a, b int) int
 	natural := false
 	switch c.Cmp {
@@ -449,8 +490,18 @@ func checkSeq(c SeqCase) (in info, msg string) {
 		natural = true
 		in.set(c12Nat)
 	}
-	wantLIS := refLongest(c.Vs, cmpf, true)
-	wantLNDS := refLongest(c.Vs, cmpf, false)
+	var wantLIS, wantLNDS int
+	if len(c.Vs) <= 1500 {
+		wantLIS = refLongest(c.Vs, cmpf, true)
+		wantLNDS = refLongest(c.Vs, cmpf, false)
+		// the two references are written independently; they must agree
+		if f1, f2 := refLongestFast(c.Vs, cmpf, true), refLongestFast(c.Vs, cmpf, false); f1 != wantLIS || f2 != wantLNDS {
+			panic(fmt.Sprintf("harness error: reference DP gives %d/%d, patience reference %d/%d for %v", wantLIS, wantLNDS, f1, f2, c.Vs))
+		}
+	} else {
+		wantLIS = refLongestFast(c.Vs, cmpf, true)
+		wantLNDS = refLongestFast(c.Vs, cmpf, false)
+	}
 
 	for _, strict := range []bool{true, false} {
 		name, want := "LNDS", wantLNDS
@@ -461,6 +512,9 @@ func checkSeq(c SeqCase) (in info, msg string) {
 			name += "Func[" + c.Cmp + "]"
 		}
 		errf := func(format string, args ...any) string {
+			if len(c.Segs) > 0 {
+				return fmt.Sprintf("%s(%d elements: arithmetic runs {start,step,len} %v): ", name, len(c.Vs), c.Segs) + fmt.Sprintf(format, args...)
+			}
 			return fmt.Sprintf("%s(%s): ", name, brief(c.Vs)) + fmt.Sprintf(format, args...)
 		}
 		vs := slices.Clone(c.Vs)
@@ -498,7 +552,7 @@ func checkSeq(c SeqCase) (in info, msg string) {
 			}
 		}
 		if len(got) != want {
-			return in, errf("result %s has length %d, the optimum (quadratic DP) is %d", brief(got), len(got), want)
+			return in, errf("result %s has length %d, the optimum (reference DP / patience sorting) is %d", brief(got), len(got), want)
 		}
 	}
 
@@ -519,6 +573,10 @@ func checkSeq(c SeqCase) (in info, msg string) {
 	in.setIf(wantLNDS > wantLIS, c12Diff)
 	in.setIf(wantLNDS >= wantLIS+3, c12Diff3)
 	in.setIf(n >= 50, c12SeqLong)
+	in.setIf(n > 1<<15, c12Seq15)
+	in.setIf(n > 1<<16, c12Seq16)
+	in.setIf(wantLNDS > 1<<15, c12Opt15)
+	in.setIf(wantLNDS > 1<<16, c12Opt16)
 	return in, ""
 }
 
@@ -539,12 +597,18 @@ type LCSCase struct {
 	As   []int `json:"as"`
 	Bs   []int `json:"bs"`
 	Fold bool  `json:"fold,omitempty"`
+	// Lay is the memory layout of the two arguments: 0 separate slices with
+	// cap == len; 1 adjacent windows as|bs of one buffer; 2 adjacent windows
+	// bs|as; 3 as|gap|bs with the gap inside as's capacity.  A function that
+	// does not modify its inputs must leave both windows intact whichever way
+	// they lie in memory.
+	Lay int `json:"lay,omitempty"`
 }
 
 var c12LCSNames = []string{
 	"LCS(==)", "LCSFunc(fold)", "an_input_empty", "lcs_len=0", "len(as)>len(bs)", "len(as)<len(bs)",
 	"len(as)==len(bs)", "distinct_lcs=1", "distinct_lcs=2..9", "distinct_lcs>=10", "len>=50",
-	"fold_merges_distinct_elements",
+	"fold_merges_distinct_elements", "inputs_are_adjacent_windows_of_one_buffer",
 }
 
 const (
@@ -560,6 +624,7 @@ const (
 	c12LMany
 	c12LLong
 	c12FoldUsed
+	c12Adjacent
 )
 
 func foldEq(a, b int) bool { return a>>1 == b>>1 }
@@ -582,6 +647,22 @@ func checkLCS(c LCSCase) (in info, msg string) {
 		return fmt.Sprintf("%s(as=%s, bs=%s): ", name, brief(c.As), brief(c.Bs)) + fmt.Sprintf(format, args...)
 	}
 	as, bs := slices.Clone(c.As), slices.Clone(c.Bs)
+	if c.Lay != 0 {
+		na, nb := len(c.As), len(c.Bs)
+		const gap = 3
+		buf := make([]int, 0, na+nb+2*gap)
+		switch c.Lay {
+		case 1:
+			buf = append(append(buf, c.As...), c.Bs...)
+			as, bs = buf[:na], buf[na:na+nb]
+		case 2:
+			buf = append(append(buf, c.Bs...), c.As...)
+			bs, as = buf[:nb], buf[nb:nb+na]
+		default:
+			buf = append(append(append(buf, c.As...), -7, -7, -7), c.Bs...)
+			as, bs = buf[:na], buf[na+gap:na+gap+nb]
+		}
+	}
 	var got []int
 	pv := vk.PanicValue(func() {
 		if c.Fold {
@@ -629,6 +710,7 @@ func checkLCS(c LCSCase) (in info, msg string) {
 	in.setIf(n >= 2 && n <= 9, c12LFew)
 	in.setIf(n >= 10, c12LMany)
 	in.setIf(len(as) >= 50 || len(bs) >= 50, c12LLong)
+	in.setIf(c.Lay != 0, c12Adjacent)
 	if c.Fold {
 		in.setIf(lcsTable(c.As, c.Bs)[0] < S[0], c12FoldUsed)
 	}
